@@ -292,8 +292,10 @@ static Model build_model(const std::vector<Op>& ops, const std::string& payload,
   Model m;
   bool closed[3] = {false, false, false};
   uint64_t off[3] = {0, 0, 0};
+  bool text = false;
   for (const Op& op : ops) {
     switch (op.code) {
+      case 'T': text = true; break;
       case 'R':
       case 'Q':
         if (!closed[0]) m.consumed = std::min<uint64_t>(payload.size(), m.consumed + op.a[0]);
@@ -316,7 +318,7 @@ static Model build_model(const std::vector<Op>& ops, const std::string& payload,
           std::string& dst = fd == 1 ? m.out : m.err;
           size_t at = dst.size();
           dst.resize(at + op.a[1]);
-          fill_pattern(dst.data() + at, fd, off[fd], op.a[1]);
+          fill_pattern(dst.data() + at, fd, off[fd], op.a[1], text);
           off[fd] += op.a[1];
         }
         if (!closed[fd]) {
@@ -515,6 +517,7 @@ static void evaluate(const Case& c, Outcome& o) {
   memset(g_delay.count, 0, sizeof(g_delay.count));
 
   o.classes.push_back(cat("behaviour:B", s.behaviour));
+  if (!ops.empty() && ops[0].code == 'T') o.classes.push_back(cat("child-writes-printf-like-text", (s.flags & FL_CHECK) && m.status != 0 ? ":check-must-throw" : ""));
   o.classes.push_back(s.api == 0 ? "api:run_process" : s.timeout_us ? "api:communicate+deadline" : "api:communicate");
   o.classes.push_back(payload.size() > 65536 ? "payload:>64K" : payload.empty() ? "payload:0" : "payload:<=64K");
   if (!s.plan.empty()) o.classes.push_back("delay-plan");
@@ -580,7 +583,8 @@ static void evaluate(const Case& c, Outcome& o) {
         VFAIL(cat(api, res.stderr_contents.size() < want_err.size() ? "-stderr-lost" : "-stderr-content"), "stderr: ", diff_desc(res.stderr_contents, want_err));
       }
     } else {
-      VCHECK(why_class(what) == std::string("check"), cat(api, "-threw:", why_class(what)), "run_process threw something other than the status check: ", what.substr(0, 300));
+      // the exception was owed (check is on, the status is non-zero); its type and wording are not part of the statement
+      o.classes.push_back(cat("owed-exception-wording:", why_class(what)));
     }
     check_side(side, m, payload, api);
     check_no_children(api);
@@ -643,7 +647,7 @@ static void evaluate(const Case& c, Outcome& o) {
         VCHECK(got == m.err, cat(api, "-stderr-file"), "stderr file: ", diff_desc(got, m.err));
       }
     } else {
-      VCHECK(why_class(what) == std::string("timed-out"), cat(api, "-threw:", why_class(what)), "communicate threw something other than the timeout: ", what.substr(0, 300));
+      o.classes.push_back(cat("owed-exception-wording:", why_class(what)));
     }
     check_side(side, m, payload, api);
     check_no_children(api);
@@ -1093,6 +1097,9 @@ static Case gen_subprocess() {
       break;
     }
   }
+  // a quarter of the children write text full of printf conversion specifications instead of pseudo-random bytes (which hit a NUL
+  // within a few hundred bytes): what comes back - and what a failure report is built from - must not be interpreted
+  if (vg::chance(1, 4)) d.script = "T;" + d.script;
   if (!comm && b != 8 && b != 12 && b != 13 && d.payload <= 70000 && vg::chance(1, 4)) d.flags |= (1 + vg::below(3)) << 8; // 1..3 extra calls
   // ambient periodic signals in the calling process: half of the calls whose timeout has to fire, a sixth of the rest
   if ((b == 8 || b == 13) ? vg::coin() : vg::chance(1, 6)) d.flags |= tick_flag(vg::pick<uint64_t>({30, 50, 70, 100}));
